@@ -69,6 +69,11 @@ type comGen struct {
 	// exact-boundary scenarios: delegating / redelegating exactly this much to validator 0 gives exactly 6.6 %
 	exactDel, exactRedel *big.Int
 	last                 int // the validator targeted last
+	// validators that a MsgCreateValidator of the current transaction names (not in the store), with the
+	// self-delegation it carries
+	fresh      []string
+	created    string
+	createdVal *big.Int
 }
 
 func (g *comGen) valID(a string) string {
@@ -81,10 +86,21 @@ func (g *comGen) valID(a string) string {
 			return id
 		}
 	}
-	if a == g.unknown {
-		return "u"
+	// a valid address of no stored validator (e.g. one that a MsgCreateValidator of the transaction names)
+	if va, err := sdk.ValAddressFromBech32(a); err == nil {
+		return fmt.Sprintf("n%x", []byte(va)[:6])
 	}
 	return "bad"
+}
+
+// boundary: the amount A with (tok + A) / (total + A) = 6.6 % for a validator holding tok
+func (g *comGen) boundary(tok *big.Int) *big.Int {
+	num := new(big.Int).Mul(big.NewInt(66), g.total)
+	num.Sub(num, new(big.Int).Mul(big.NewInt(1000), tok))
+	if num.Sign() <= 0 {
+		return big.NewInt(0)
+	}
+	return num.Quo(num, big.NewInt(934))
 }
 
 func (g *comGen) rate() *big.Int {
@@ -107,6 +123,13 @@ func (g *comGen) rate() *big.Int {
 }
 
 func (g *comGen) valAddr() (string, int) {
+	if g.created != "" && g.rng.Chance(1, 2) {
+		a := g.created // the validator an earlier message of this transaction creates
+		if g.rng.Chance(1, 5) {
+			a = strings.ToUpper(a)
+		}
+		return a, -2
+	}
 	switch g.rng.Intn(14) {
 	case 0:
 		return g.unknown, -1
@@ -129,6 +152,18 @@ func (g *comGen) valAddr() (string, int) {
 
 // amount around the boundary (tok+a)/(total+[a]) = 6.6 %
 func (g *comGen) amount(i int, redelegate bool) *big.Int {
+	if i == -2 {
+		// to the validator being created: alone under the cap, with the self-delegation around it
+		b := new(big.Int).Sub(g.boundary(big.NewInt(0)), g.createdVal)
+		b.Add(b, big.NewInt(int64(g.rng.Intn(7)-3)))
+		if b.Sign() < 0 {
+			b.SetInt64(0)
+		}
+		if g.rng.Chance(1, 5) {
+			return g.rng.Near(b)
+		}
+		return b
+	}
 	if i == 0 && ((!redelegate && g.exactDel != nil) || (redelegate && g.exactRedel != nil)) && g.rng.Chance(3, 4) {
 		a := g.exactDel
 		if redelegate {
@@ -171,7 +206,21 @@ func (g *comGen) leafMsg() *node {
 	var m sdk.Msg
 	switch g.rng.Intn(9) {
 	case 0:
-		m = &stakingtypes.MsgCreateValidator{DelegatorAddress: del, Commission: stakingtypes.CommissionRates{Rate: decRaw(g.rate()), MaxRate: sdk.OneDec(), MaxChangeRate: sdk.OneDec()}}
+		addr := g.fresh[g.rng.Intn(len(g.fresh))]
+		if len(g.ops) > 0 && g.rng.Chance(1, 8) {
+			addr = g.ops[g.rng.Intn(len(g.ops))] // "creating" a validator that exists
+		}
+		value := new(big.Int).Quo(new(big.Int).Mul(g.boundary(big.NewInt(0)), big.NewInt(int64(1+g.rng.Intn(3)))), big.NewInt(4))
+		if g.rng.Chance(1, 6) {
+			value = g.rng.Amount(90)
+		}
+		rate := g.rate()
+		if g.rng.Chance(1, 2) {
+			rate = new(big.Int).Set(minComRaw) // so that the transaction gets past this message
+		}
+		m = &stakingtypes.MsgCreateValidator{DelegatorAddress: del, ValidatorAddress: addr, Value: sdk.Coin{Denom: g.denom, Amount: sdk.NewIntFromBigInt(value)},
+			Commission: stakingtypes.CommissionRates{Rate: decRaw(rate), MaxRate: sdk.OneDec(), MaxChangeRate: sdk.OneDec()}}
+		g.created, g.createdVal = addr, value
 	case 1:
 		if g.rng.Chance(1, 4) {
 			m = &stakingtypes.MsgEditValidator{ValidatorAddress: g.unknown}
@@ -225,13 +274,14 @@ func init() {
 		grantee := sdk.AccAddress([]byte("grantee_____________"))
 		pks := sifapp.CreateTestPubKeys(40)
 		unknown := sdk.ValAddress([]byte("no_such_validator___")).String()
+		freshVals := []string{sdk.ValAddress([]byte("new_validator_one___")).String(), sdk.ValAddress([]byte("new_validator_two___")).String(), unknown}
 		next := func(c sdk.Context, _ sdk.Tx, _ bool) (sdk.Context, error) { return c, nil }
 		maxDepth := 0
 		scen := 0
 		for out.N < 2*n {
 			scen++
 			ctx, _ := ctx0.CacheContext()
-			g := &comGen{last: -1, rng: rng, grantee: grantee, ids: map[string]string{}, unknown: unknown, denom: app.StakingKeeper.BondDenom(ctx)}
+			g := &comGen{fresh: freshVals, last: -1, rng: rng, grantee: grantee, ids: map[string]string{}, unknown: unknown, denom: app.StakingKeeper.BondDenom(ctx)}
 			// validators: K of them, sizes of one magnitude so that the 6.6 % boundary is within reach
 			K := rng.Intn(26)
 			if rng.Chance(1, 12) {
@@ -300,16 +350,37 @@ func init() {
 				if rng.Chance(1, 10) {
 					depth = 6
 				}
+				g.created = ""
+				createThenDelegate := rng.Chance(1, 6)
 				if scen <= 2 && t < 4 {
 					// directed: DESIGN 4/C19 (c) and neighbours
 					zero := sdk.ZeroDec()
 					ev := &stakingtypes.MsgEditValidator{ValidatorAddress: unknown, CommissionRate: &zero}
-					cv := &stakingtypes.MsgCreateValidator{DelegatorAddress: grantee.String(), Commission: stakingtypes.CommissionRates{Rate: zero, MaxRate: sdk.OneDec(), MaxChangeRate: sdk.OneDec()}}
+					cv := &stakingtypes.MsgCreateValidator{DelegatorAddress: grantee.String(), ValidatorAddress: unknown, Value: sdk.NewCoin(g.denom, sdk.ZeroInt()), Commission: stakingtypes.CommissionRates{Rate: zero, MaxRate: sdk.OneDec(), MaxChangeRate: sdk.OneDec()}}
 					var m sdk.Msg = ev
 					if t%2 == 1 {
 						m = cv
 					}
 					ns = []*node{wrapDepth(grantee, leaf(m, bodyOfStaking(m, g.valID)), t/2+scen-1)}
+				} else if createThenDelegate {
+					// create a validator, then delegate / redelegate to it in the same transaction (direct, nested, other spelling)
+					addr := g.fresh[rng.Intn(len(g.fresh))]
+					value := new(big.Int).Quo(new(big.Int).Mul(g.boundary(big.NewInt(0)), big.NewInt(int64(1+rng.Intn(3)))), big.NewInt(4))
+					cv := &stakingtypes.MsgCreateValidator{DelegatorAddress: grantee.String(), ValidatorAddress: addr, Value: sdk.Coin{Denom: g.denom, Amount: sdk.NewIntFromBigInt(value)},
+						Commission: stakingtypes.CommissionRates{Rate: decRaw(minComRaw), MaxRate: sdk.OneDec(), MaxChangeRate: sdk.OneDec()}}
+					g.created, g.createdVal = addr, value
+					target := addr
+					if rng.Chance(1, 4) {
+						target = strings.ToUpper(addr)
+					}
+					var m sdk.Msg
+					if rng.Chance(2, 3) || len(g.ops) == 0 {
+						m = &stakingtypes.MsgDelegate{DelegatorAddress: grantee.String(), ValidatorAddress: target, Amount: sdk.Coin{Denom: g.denom, Amount: sdk.NewIntFromBigInt(g.amount(-2, false))}}
+					} else {
+						m = &stakingtypes.MsgBeginRedelegate{DelegatorAddress: grantee.String(), ValidatorSrcAddress: g.ops[rng.Intn(len(g.ops))], ValidatorDstAddress: target,
+							Amount: sdk.Coin{Denom: g.denom, Amount: sdk.NewIntFromBigInt(g.amount(-2, true))}}
+					}
+					ns = []*node{wrapDepth(grantee, leaf(cv, bodyOfStaking(cv, g.valID)), rng.Intn(2)), wrapDepth(grantee, leaf(m, bodyOfStaking(m, g.valID)), rng.Intn(3))}
 				} else {
 					for i := 0; i < k; i++ {
 						ns = append(ns, g.tree(depth))
